@@ -18,6 +18,15 @@
 #include <sys/stat.h>
 #include <sys/types.h>
 
+// A racing creator: the k-th mkdir() call that Directory::create makes finds that somebody else has just made that directory
+// (the wrapper makes it first, the library's own call then fails with EEXIST). The path exists afterwards, so create() owes a true.
+extern "C" int __real_mkdir(const char* path, mode_t mode);
+namespace { long g_mkdirRaceAt = -1, g_mkdirCalls = 0; bool g_mkdirRaced = false; }
+extern "C" int __wrap_mkdir(const char* path, mode_t mode) {
+  if (g_mkdirRaceAt >= 0 && g_mkdirCalls++ == g_mkdirRaceAt) { if (__real_mkdir(path, 0755) == 0) g_mkdirRaced = true; }
+  return __real_mkdir(path, mode);
+}
+
 const char* pbt_property = "C19";
 const char* pbt_part = "dirs";
 
@@ -144,7 +153,7 @@ void pbt_generate(Rng& r, int size, Case& c) {
   for (int k = 0; k < nops; ++k) {
     int o = r.weighted(w, 5);
     long base = r.chance(35) ? (long)r.below(3) : (long)r.below(14);
-    if (o == 0) { static const int sw[] = {25, 33, 19, 14, 5, 4}; c.add("create", base, r.weighted(sw, 6), decor(25, 18), (long)r.below(NS * NS * NS)); }
+    if (o == 0) { static const int sw[] = {25, 33, 19, 14, 5, 4}; c.add("create", base, r.weighted(sw, 6), decor(25, 18), (long)r.below(NS * NS * NS), r.chance(25) ? std::string(1, (char)('0' + r.below(4))) : std::string()); }
     else if (o == 1) c.add("unlink", base, r.chance(88) ? 0 : 1, decor(15, 12) | (r.chance(60) ? D_FLAG : 0), (long)r.below(NS * NS * NS));
     else if (o == 2) c.add("exists", base, r.chance(70) ? 0 : 1, decor(15, 12), (long)r.below(NS * NS * NS));
     else if (o == 3) c.add("enum", base, (long)r.below(NP), decor(15, 10) | (r.chance(40) ? D_FLAG : 0), r.chance(8) ? 1 : 0);
@@ -273,7 +282,10 @@ void pbt_run(const Case& cs, Ctx& ctx) {
       if (w.escapes || w.crossesLink) { ctx.count("skipped_leaves_tree"); continue; }
       bool predictedOk = !w.blockedPrefix && w.fin != F_NONDIR;
       if (!predictedOk && ctx.excluded("C19-create-returns-true")) continue;
+      g_mkdirCalls = 0; g_mkdirRaced = false; g_mkdirRaceAt = op.data.empty() ? -1 : (long)(unsigned char)op.data[0] % 4;
       bool ret = Directory::create(L(path));
+      g_mkdirRaceAt = -1;
+      if (g_mkdirRaced) ctx.label("create_lost_race_against_other_creator");
       struct stat st; bool isDir = stat(path.c_str(), &st) == 0 && S_ISDIR(st.st_mode);
       Snap after = snapshot();
       if (ret != isDir) die(ret ? "create-true-but-no-directory" : "create-false-but-directory", "Directory::create(\"" + path + "\") returned " + (ret ? "true" : "false") + " but afterwards the path is " + (isDir ? "" : "not ") + "a directory");
